@@ -59,7 +59,7 @@ def gen_cases(tier, seed):
             k = n - 2 + d      # 12 header bits = 1.5 bytes: the boundary with the header lies 1-2 bytes below n (n itself included)
             if k < 1:
                 continue
-            kw = {'eci': True, 'encoding': rng.choice(['utf-8', 'utf-8', 'latin1', 'ISO-8859-1', 'L1', 'iso-8859-1', 'cp1252'])}
+            kw = {'eci': True, 'encoding': rng.choice(['utf-8', 'utf-8', 'latin1', 'ISO-8859-1', 'L1', 'iso-8859-1', 'cp1252', 'koi8-r', 'cp850'])}
             if rng.random() < 0.5:
                 kw['version'] = v
             cases.append(common.mk('a' * k, tag='boost-eci', **kw))
